@@ -243,7 +243,7 @@ func emit(o *hlib.Out, kind string, h Hist) {
 	for i, op := range h.Ops {
 		switch op.K {
 		case "push":
-			if int64(size) >= h.Cap && h.Cap > 0 && (a[i].Err == 0 || a[i].Err == 2) {
+			if int64(size) >= h.Cap && (a[i].Err == 0 || a[i].Err == 2) {
 				nontrivial = true
 			}
 			if a[i].Err == 0 && int64(size) < h.Cap {
@@ -329,9 +329,17 @@ func main() {
 	for _, h := range fixed {
 		emit(o, "fixed", h)
 	}
-	// known finding 1: capacity <= 0
-	for _, c := range []int64{0, -1} {
-		emit(o, "edge-cap-nonpositive", Hist{Cap: c, NKeys: 2, Ops: []Op{wk(0), rm(0), p(0, 1, 0, 1), p(1, 2, 0, 1), rm(0)}})
+	// capacity <= 0 (former finding 1): the queue is full while empty, every Push is ErrMemFull
+	for _, c := range []int64{0, -1, math.MinInt64} {
+		emit(o, "edge-cap-nonpositive", Hist{Cap: c, NKeys: 2, Ops: []Op{p(0, 1, 0, 1)}})
+		emit(o, "edge-cap-nonpositive", Hist{Cap: c, NKeys: 2, Ops: []Op{wk(0), rm(0), p(0, 1, 0, 1), p(1, 2, 0, 1), rm(0), p(0, 1, 3, 1), wk(1)}})
+	}
+	ge := &gen{r: hlib.NewRng(opts.Seed + 2400)} // own stream: the other streams stay as they were
+	for i := 0; i < 12*mult; i++ {
+		c := hlib.Pick(ge.r, []int64{0, 0, -1, -2, math.MinInt64})
+		h := ge.hist(1, ge.r.Range(1, 3), ge.r.Range(3, 12), ge.subset(smallScores, ge.r.Range(1, 3)), ranks, sizes, 70, 15, 1)
+		h.Cap = c
+		emit(o, "edge-cap-nonpositive", h)
 	}
 
 	// small capacities, few scores: ties, evictions and rejections everywhere
